@@ -101,10 +101,10 @@ impl<R: RawData, O: DataOrder> Iterator for RawDataIterator<'_, R, O> {
     }
 
     fn size_hint(&self) -> (usize, Option<usize>) {
-        let pixels_total = if R::BITS_PER_PIXEL >= 8 {
+        let pixels_total = if R::BITS_PER_PIXEL < 8 {
             self.data.len() * (8 / R::BITS_PER_PIXEL)
         } else {
-            self.data.len() * (R::BITS_PER_PIXEL / 8)
+            self.data.len() / (R::BITS_PER_PIXEL / 8)
         };
 
         let size = pixels_total.saturating_sub(self.index);
